@@ -488,9 +488,12 @@ class Summariser:
                     self.bind(t, None, p, st)
                 return [p]
             if isinstance(v, ast.YieldFrom):
+                # the value of the delegated generator is a symbol numbered by its position among the path's delegations
+                n = sum(1 for k, _e, _n in p.effects if k == "yieldfrom")
                 p.effects.append(("yieldfrom", self.expand(v.value, p), st))
+                sym = ast.Name(id=f"_yf{n}", ctx=ast.Load())
                 for t in st.targets:
-                    self.bind(t, None, p, st)
+                    self.bind(t, sym, p, st)
                 return [p]
             out = []
             for q, e in self.fork_value(v, p.fork()):
